@@ -46,7 +46,7 @@ def run(tier, replay=None):
         nmut, nrnd = (8000, 4000) if tier == "quick" else (400000, 150000)
         for k in range(nmut):
             cases.append({'id': 'mutant%d' % k, 'src': fuzzlib.mutate(rng.choice(seeds), rng, fuzzlib.ATOK, fuzzlib.APOOL), 'fam': 'mutant'})
-        alpha = list("abLDACBRZNOPSVTIMFU -\n#0123456789_")
+        alpha = list("abLDACBRZNOPSVTIMFU -\n#0123456789_%$\\{}\"'\t:;~")
         for k in range(nrnd):
             cases.append({'id': 'bytes%d' % k, 'src': fuzzlib.random_bytes(rng, 2048, alpha), 'fam': 'bytes'})
         for c in asmlib.coupled_cases(True) + asmlib.cascade_cases(tier != "quick"):
@@ -84,7 +84,8 @@ def run(tier, replay=None):
             chk.violation("memcheck:" + fuzzlib.stable(head), "hexasm on input %s: valgrind memcheck reports %s" % (c['id'], head), {"input.S": c['src'].encode('latin-1', 'replace')})
         # the EXECUTABLE (its main() has exception handlers of its own) on a sample
         usamp = [c for c in cases if c['fam'] == 'unusual']
-        esub = usamp[:: max(1, len(usamp) // (250 if tier == "quick" else 5000))] + [c for c in cases if c['fam'] in ('edge', 'deep')] + scale
+        esub = usamp[:: max(1, len(usamp) // (250 if tier == "quick" else 5000))] + [c for c in cases if c['fam'] in ('edge', 'deep')] + scale + \
+               [c for c in cases if c['fam'] == 'bytes'][:(150 if tier == "quick" else 3000)] + [c for c in cases if c['fam'] == 'mutant'][:(150 if tier == "quick" else 3000)]
         for c, what in fuzzlib.exe_sample(os.path.join(corpus.tools(), "hexasm"), esub, d, ".S", "c10"):
             chk.violation("exe:" + what.split(',')[0], "hexasm executable on input %s: %s" % (c['id'], what), {"input.S": c['src'].encode('latin-1', 'replace')})
         chk.set("executable_runs", len(esub)); chk.set("scale_inputs", len(scale)); chk.set("scale_sizes", list(sizes))
